@@ -248,7 +248,7 @@ func init() {
 				ruleRegistryRemovalSites(c, "C09.1", "client.RpcMultiplexer.handlers", []string{"client.RpcMultiplexer.unregisterHandler", "client.RpcMultiplexer.closeError"})
 				ruleWhoPublishesFailure(c, "C09.1")
 			})
-			c.guard("C09.2", func() { ruleCheckThenRegister(c, "C09.2") })
+			c.guard("C09.2", func() { ruleCheckThenRegister(c, "C09.2"); ruleRegistrationRefusalHonoured(c, "C09.2") })
 			c.guard("C09.3", func() { ruleReadLoopExitPublished(c, "C09.3") })
 			c.guard("C09.4", func() { ruleClosedChannelMeansError(c, "C09.4") })
 			c.guard("C09.5", func() {
@@ -345,7 +345,7 @@ func init() {
 		ruleText:    "obligation = one acquire/release pairing, cancel function, blocking primitive or store; non-trivial = needed a path search, ownership transfer, provenance",
 		assumptions: baseAssumptions,
 		run: func(c *Ctx, thorough bool) {
-			c.guard("C14.1", func() { ruleClientRegistrationPairing(c, "C14.1") })
+			c.guard("C14.1", func() { ruleClientRegistrationPairing(c, "C14.1"); ruleRegistrationRefusalHonoured(c, "C14.1") })
 			c.guard("C14.2", func() {
 				ruleServerRegistrationPairing(c, "C14.2")
 				ruleRegistryRemovalSites(c, "C14.2", "goat.handler.streams", []string{"goat.handler.unregisterStream"})
